@@ -24,6 +24,9 @@ package main
 
 import (
 	"encoding/json"
+	"fmt"
+	"os"
+	"time"
 
 	"verif/vkit"
 )
@@ -48,8 +51,13 @@ var (
 )
 
 func seq(tier string, sh *vkit.Shard, p *vkit.Part) {
-	for _, f := range parts {
+	for i, f := range parts {
+		t0 := time.Now()
 		f(tier, sh, p)
+		if os.Getenv("VERIF_TIMING") != "" {
+			// diagnostics only (which space costs what in which worker); decides nothing
+			fmt.Fprintf(os.Stderr, "timing shard %d/%d part %d: %.1fs\n", sh.I, sh.N, i, time.Since(t0).Seconds())
+		}
 	}
 }
 
